@@ -11,12 +11,13 @@ _, cfgs = chk.export_configs("Regress", "RegressMC_quick.cfg", keep=lambda c: c.
 def pick(name, pred):
     c = next(c for c in cfgs if pred(c))
     return c19.execute({"id": "good-" + name, "cfg": c, "seed": 7})
-cp = pick("cp", lambda c: c["kind"] == "reg" and c["model"] == "cp" and c["xs"] == [3, 2] and c["ys"] == [2] and c["rank"] == 1 and c["opt"] == "tight" and c["reg"] == 100 and c["ux"] == 0)
-tk = pick("tucker", lambda c: c["kind"] == "reg" and c["model"] == "tucker" and c["xs"] == [2, 2, 2] and c["rank"] == 1 and c["opt"] == "loose" and c["reg"] == 100 and c["ux"] == 0)
+cp = pick("cp", lambda c: c["kind"] == "reg" and c["model"] == "cp" and c["xs"] == [3, 2] and c["ys"] == [2] and c["rank"] == 1 and c["opt"] == "tight" and c["reg"] == 100 and c["ux"] == 0 and c["ff"] == "f64")
+tk = pick("tucker", lambda c: c["kind"] == "reg" and c["model"] == "tucker" and c["xs"] == [2, 2, 2] and c["rank"] == 1 and c["opt"] == "loose" and c["reg"] == 100 and c["ux"] == 0 and c["ff"] == "f64")
 pl = pick("pls", lambda c: c["kind"] == "pls" and c["xs"] == [3, 2] and c["ny"] == 2 and c["nc"] == 2 and c["opt"] == "tol2")
 pu = pick("pls-units", lambda c: c["kind"] == "pls" and c["xs"] == [2, 2, 2, 2] and c["ux"] == 80 and c["nc"] == 3 and c["ny"] == 2)
 cu = pick("cp-units", lambda c: c["kind"] == "reg" and c["model"] == "cp" and c["xs"] == [3, 2] and c["ys"] == [2] and c["ux"] == -20 and c["rank"] == 1)
-good = [cp, tk, pl, pu, cu]
+cf = pick("cp-x32", lambda c: c["kind"] == "reg" and c["model"] == "cp" and c["xs"] == [3, 2] and c["ys"] == [2] and c["ff"] == "x32" and c["rank"] == 1)
+good = [cp, tk, pl, pu, cu, cf]
 evs, want = list(good), {}
 def mut(base, name, clause, f):
     e = copy.deepcopy(base); e["id"] = name; f(e); evs.append(e); want[name] = clause
@@ -67,9 +68,12 @@ mut(pl, "pls-form-predict", "PredictDataForm", lambda e: e["extra"]["forms"][1][
 mut(pl, "pls-bad-fit-accepted", "BadFitNotRejected", lambda e: e["extra"]["reject"].update(raised=False, exc=""))
 mut(pl, "pls-reject-changed", "RejectedFitChangedModel", bump(["extra", "reject", "pred"], 0, 7))
 mut(pl, "pls-refit", "RefitIndependent", bump(["extra", "refit", "scores"], 0, 7))
-mut(pu, "units-unit-loadings", "UnitLoadings", lambda e: e["base"]["loads"][3].__setitem__("data", [int(0.99 * x) for x in e["base"]["loads"][3]["data"]]))
+mut(pu, "units-unit-loadings", "UnitLoadings", lambda e: e["shiftx"]["loads"][3].__setitem__("data", [int(0.99 * x) for x in e["shiftx"]["loads"][3]["data"]]))
 mut(pu, "units-hung", "FitHung", lambda e: e["base"].update(raised=True, exc="Timeout"))
 mut(cu, "units-predict", "Predict", bump(["pred"], 0, 40))
+mut(cf, "fitform-precision", "WeightIsDensePrecision", lambda e: e["prec"].__setitem__("wd", 270000000))
+mut(cf, "fitform-vec-precision", "VecWPrecision", lambda e: e["prec"].__setitem__("vd", 65))
+mut(pl, "pls-fit-twice", "FitTwiceSame", bump(["extra", "again", "scores"], 0, 7))
 def permswap(e): e["perm"][0], e["perm"][1] = e["perm"][1], e["perm"][0]
 mut(pl, "pls-perm", "PermScores", permswap)
 mut(pl, "pls-nan", "Finite", lambda e: e["base"]["scores"]["data"].__setitem__(0, 2000000001))
@@ -77,6 +81,7 @@ rej = {r[0]: r[1] for r in chk.validate("RegressTrace", evs)}
 for e in evs:
     print("%-18s %s" % (e["id"], rej.get(e["id"], "accepted")))
 print("machinery:", chk.machinery)
-assert not chk.machinery and all(g["id"] not in rej for g in good) and all(rej.get(k) == v for k, v in want.items()), "self-test failed"
+bad = [(k, v, rej.get(k)) for k, v in want.items() if rej.get(k) != v] + [g["id"] for g in good if g["id"] in rej]
+assert not chk.machinery and not bad, "self-test failed: %s" % bad
 print("OK: %d corrupted events rejected with the expected clause, %d genuine events accepted" % (len(want), len(good)))
 shutil.rmtree(chk.work, ignore_errors=True)
